@@ -5,10 +5,12 @@ package pcommon
 import (
 	"encoding/hex"
 	"fmt"
+	"reflect"
 	"strings"
 	"testing"
 
 	"go.opentelemetry.io/collector/pdata/internal"
+	otlpcommon "go.opentelemetry.io/collector/pdata/internal/data/protogen/common/v1"
 )
 
 // Nested differential (model `c07-nest`): random programs over 2-4 root pcommon.Values holding
@@ -300,6 +302,17 @@ func (st *n7st) apply(o n7op) (line string, panicked bool) {
 		} else {
 			a.Slice().CopyTo(b.Slice())
 		}
+	case "moveappend":
+		line = fmt.Sprintf("op moveappend %d %s %d %s cap=", o.r, o.p, o.r2, o.p2)
+		defer func() {
+			c := 0
+			func() {
+				defer func() { _ = recover() }()
+				c = cap(*st.at(o.r2, o.p2).Slice().getOrig())
+			}()
+			line += fmt.Sprint(c)
+		}()
+		st.at(o.r, o.p).Slice().MoveAndAppendTo(st.at(o.r2, o.p2).Slice())
 	case "moveroot":
 		line = fmt.Sprintf("op moveroot %d %d", o.r, o.r2)
 		st.roots[o.r].MoveTo(st.roots[o.r2])
@@ -313,6 +326,15 @@ func (st *n7st) apply(o n7op) (line string, panicked bool) {
 func n7corpus() [][]n7op {
 	ss := func(r int, p, sel, nv string) n7op { return n7op{kind: "setslot", r: r, p: p, sel: sel, nv: nv} }
 	return [][]n7op{
+		// MoveAndAppendTo into a NEVER-USED destination (nil array: the whole vector is handed over), then the
+		// emptied source is refilled and the destination edited: they must not share the backing array.
+		// Top level, and nested (a slice inside a map value).
+		{{kind: "setroot", r: 0, nv: "a"}, ss(0, "-", "push", "n"), ss(0, "-", "i0", "c0.1"), ss(0, "-", "push", "n"), ss(0, "-", "i1", "c0.2"),
+			{kind: "setroot", r: 1, nv: "a"}, {kind: "moveappend", r: 0, p: "-", r2: 1, p2: "-"},
+			ss(0, "-", "push", "n"), ss(0, "-", "i0", "c1.9"), ss(1, "-", "i1", "c0.7"), ss(0, "-", "push", "n"),
+			{kind: "setroot", r: 2, nv: "m"}, ss(2, "-", "k1", "a"), ss(2, "k1", "push", "n"), ss(2, "k1", "i0", "b01"), ss(2, "-", "k2", "a"),
+			{kind: "moveappend", r: 2, p: "k1", r2: 2, p2: "k2"}, ss(2, "k1", "push", "n"), ss(2, "k1", "i0", "c0.5"),
+			{kind: "bapp", r: 2, p: "k2/i0", x: 3}, {kind: "moveappend", r: 1, p: "-", r2: 2, p2: "k2"}, ss(1, "-", "push", "n")},
 		// Map.Remove leaves a stale slot aliasing a live NESTED map; CopyTo of a longer map re-exposes it
 		{{kind: "setroot", r: 1, nv: "m"}, ss(1, "-", "k1", "m"), ss(1, "k1", "k1", "b01"), ss(1, "-", "k2", "c0.5"), ss(1, "-", "k3", "m"),
 			ss(1, "k3", "k1", "b03"), {kind: "remove", r: 1, p: "-", k: 1},
@@ -328,6 +350,75 @@ func n7corpus() [][]n7op {
 			{kind: "copyval", r: 1, p: "i1", r2: 1, p2: "i2/k2"}, {kind: "moveroot", r: 1, r2: 2}, {kind: "markro", r: 2},
 			ss(2, "i1", "k1", "c0.0"), {kind: "copyval", r: 2, p: "i1", r2: 0, p2: "i0"}, {kind: "copyval", r: 0, p: "-", r2: 2, p2: "i0"}},
 	}
+}
+
+// direct separation oracle on the implementation: every non-scalar one-of wrapper and every backing
+// array (also of an emptied slice that kept its capacity) is reachable at most once from the roots
+func n7note(seen map[uintptr]string, p any, where string) string {
+	a := reflect.ValueOf(p).Pointer()
+	if a == 0 {
+		return ""
+	}
+	if w, ok := seen[a]; ok {
+		return fmt.Sprintf("first=%s again=%s", w, where)
+	}
+	seen[a] = where
+	return ""
+}
+
+func n7ids(av *otlpcommon.AnyValue, where string, seen map[uintptr]string, depth int) string {
+	if depth > 60 {
+		return "too-deep=" + where
+	}
+	switch w := av.Value.(type) {
+	case *otlpcommon.AnyValue_KvlistValue:
+		if d := n7note(seen, w, where+":kvlist"); d != "" {
+			return d
+		}
+		if w.KvlistValue != nil {
+			kvs := w.KvlistValue.Values
+			if cap(kvs) > 0 {
+				if d := n7note(seen, &kvs[:1][0], where+":kv[]"); d != "" {
+					return d
+				}
+			}
+			for i := range kvs {
+				if d := n7ids(&kvs[i].Value, where+"/"+kvs[i].Key, seen, depth+1); d != "" {
+					return d
+				}
+			}
+		}
+	case *otlpcommon.AnyValue_ArrayValue:
+		if d := n7note(seen, w, where+":array"); d != "" {
+			return d
+		}
+		if w.ArrayValue != nil {
+			vs := w.ArrayValue.Values
+			if cap(vs) > 0 {
+				if d := n7note(seen, &vs[:1][0], where+":arr[]"); d != "" {
+					return d
+				}
+			}
+			for i := range vs {
+				if d := n7ids(&vs[i], fmt.Sprint(where, "/i", i), seen, depth+1); d != "" {
+					return d
+				}
+			}
+		}
+	case *otlpcommon.AnyValue_BytesValue:
+		return n7note(seen, w, where+":bytes")
+	}
+	return ""
+}
+
+func (st *n7st) aliasing() string {
+	seen := map[uintptr]string{}
+	for r, v := range st.roots {
+		if d := n7ids(v.getOrig(), fmt.Sprint("r", r), seen, 0); d != "" {
+			return d
+		}
+	}
+	return ""
 }
 
 func n7disjoint(a, b n7pos) bool {
@@ -358,9 +449,20 @@ func TestVerifC07Nest(t *testing.T) {
 		st := newN7(h)
 		stat := map[string]int{}
 		nt := false
+		broken := false
 		step := func(o n7op) {
+			if broken {
+				return
+			}
 			line, panicked := st.apply(o)
 			out.Linef("%s", line)
+			if d := st.aliasing(); d != "" {
+				// stop the case here: a later CopyTo could recurse forever through aliased data
+				out.Linef("obs aliased")
+				out.Linef("viol sig=C07/nest/%s-aliasing-created %s", o.kind, d)
+				broken = true
+				return
+			}
 			out.Linef("%s", st.obs(panicked))
 			stat["op_"+o.kind]++
 			if panicked {
@@ -390,7 +492,7 @@ func TestVerifC07Nest(t *testing.T) {
 			nt = true
 		} else {
 			length := 5 + rnd.IntN(45)
-			for i := 0; i < length; i++ {
+			for i := 0; i < length && !broken; i++ {
 				all := st.positions()
 				x := all[rnd.IntN(len(all))]
 				var conts, byts []n7pos
@@ -461,7 +563,7 @@ func TestVerifC07Nest(t *testing.T) {
 					y := cands[rnd.IntN(len(cands))]
 					o = n7op{kind: "copyval", r: x.r, p: x.path, r2: y.r, p2: y.path}
 					nt = true
-				case r < 95 && len(conts) > 1: // Map.CopyTo / Slice.CopyTo between disjoint containers of one kind
+				case r < 93 && len(conts) > 1: // Map.CopyTo / Slice.CopyTo between disjoint containers of one kind
 					a := conts[rnd.IntN(len(conts))]
 					var cands []n7pos
 					for _, p := range conts {
@@ -474,6 +576,32 @@ func TestVerifC07Nest(t *testing.T) {
 					}
 					b := cands[rnd.IntN(len(cands))]
 					o = n7op{kind: "copylist", r: a.r, p: a.path, r2: b.r, p2: b.path}
+					nt = true
+				case r < 97 && len(conts) > 1: // Slice.MoveAndAppendTo between disjoint slices (often into a never-used one)
+					var arrs []n7pos
+					for _, p := range conts {
+						if p.v.Type() == ValueTypeSlice {
+							arrs = append(arrs, p)
+						}
+					}
+					if len(arrs) < 2 {
+						continue
+					}
+					a := arrs[rnd.IntN(len(arrs))]
+					var cands []n7pos
+					for _, p := range arrs {
+						if n7disjoint(a, p) && p.depth+n7height(a.v) <= 2*maxDepth {
+							cands = append(cands, p)
+						}
+					}
+					if len(cands) == 0 {
+						continue
+					}
+					b := cands[rnd.IntN(len(cands))]
+					if cap(*b.v.Slice().getOrig()) == 0 {
+						stat["moveappend_into_never_used"]++
+					}
+					o = n7op{kind: "moveappend", r: a.r, p: a.path, r2: b.r, p2: b.path}
 					nt = true
 				case r < 98:
 					a := rnd.IntN(h)
